@@ -46,10 +46,26 @@ func VerifC06QuicTable() {
 		}
 	}
 	rt.Quiesce()
+	// optionally a new session from the same address arrives while the transport is reporting a loss to
+	// its handler (between its "is this link still current" check and the end of the loss handling)
+	if rt.Choose("sessionDuringLossCallback", 2) == 1 {
+		h.onLost = func() {
+			ai := linkAddr[len(linkAddr)-1]
+			c := c05Conn(X, addrs[ai])
+			l, err := t.HandleSession(ctx, c)
+			rt.Assert("session yields a link", err == nil && l != nil)
+			links = append(links, l)
+			conns = append(conns, c)
+			linkAddr = append(linkAddr, ai)
+		}
+	}
 	// losses reported by the sessions, in any order (a usurped link was already closed by the transport)
 	nl := rt.IntRange("losses", 0, nsess)
 	for k := 0; k < nl; k++ {
 		i := rt.Choose("lose", nsess)
+		if i >= len(links) {
+			continue
+		}
 		if lost[links[i]] {
 			continue
 		}
